@@ -56,7 +56,13 @@ def main():
         klass = getattr(pc, cls)
         choices = [(None, None)] + [(nm, ax) for nm in klass.deformation_names for ax in dc.AXES.get(cls, [None])]
         sizes = [s for s in (sizes2 if cls in dc.CLASSES_2D else sizes3 + [(2, 2, 4), (4, 4, 2)]) if dc.supported(cls, s)][:3]
-        dsel = rng.sample(dirs, 4 if tier == 'quick' else 12)
+        # one direction from each symmetry class (a shortcut valid for one class of deformations or directions must not hide)
+        strata = [[(0, 8, 0), (2, 4, 2), (1, 6, 1), (3, 2, 3)],          # r_x = r_z != r_y
+                  [(4, 4, 0), (3, 3, 2), (1, 1, 6), (2, 2, 4)],          # r_x = r_y != r_z
+                  [(8, 0, 0), (6, 1, 1), (2, 3, 3), (0, 4, 4)],          # r_y = r_z != r_x
+                  [(1, 2, 5), (5, 2, 1), (4, 0, 4), (0, 0, 8), (3, 1, 4)]]
+        dsel = [rng.choice(st) for st in strata] + rng.sample(dirs, 1 if tier == 'quick' else 9)
+        dsel = list(dict.fromkeys(dsel))
         rsel = rng.sample(rates, 3 if tier == 'quick' else 6)
         # ONE model object per (direction, deformation) used on all sizes; ONE code object per size used by all models
         codes = {s: klass(*s) for s in sizes}
@@ -119,6 +125,11 @@ def main():
                             if pk == rsel[-1] or pk == [r for r in rsel if 0 < r < 16][-1]:
                                 # history: the same (model object, code object, rate) asked again after sampling and after the weights
                                 # were computed once - the distribution and the weights must be what they were
+                                e_ = np.zeros(2 * n, dtype='uint8')
+                                e_[0], e_[n + (1 % n)], e_[n - 1], e_[2 * n - 1] = 1, 1, 1, 1
+                                em.error_probability(e_, code, p)
+                                with np.errstate(all='ignore'):
+                                    em.error_probability(e_, code, p, log_output=True)
                                 wx, wz = em.get_weights(code, p)
                                 res['weights'].append({'cls': cls, 'size': list(s), 'name': nm, 'axis': ax, 'dir': [a, b, c], 'p16': pk,
                                                        'wx': [float(v) for v in wx], 'wz': [float(v) for v in wz], 'dists': rec['impl'], 'again': True})
